@@ -203,6 +203,18 @@ def programs(draw, opts=None):
                               "body": [["ext", 1], [x if not isinstance(x, list) else [list(a) for a in x] for x in shared_call]]})
         referenced.add(0)
         motif2 = [1, 2]
+    elif opts.get("motifs", True) and nfuncs >= 3 and nmods >= 2 and (force == 3 or draw(st.integers(0, 5)) == 0):
+        # planted shape: the same global name in two modules, each read by a function of its own module in one evaluation
+        names = [n for n in ("VA", "VB", "VC") if not any(v["mod"] in (0, 1) and v["name"] == n for v in prog["vars"])]
+        if names:
+            nm = draw(st.sampled_from(names))
+            two = draw(st.lists(st.sampled_from(vpool), min_size=2, max_size=2, unique_by=canon_key))
+            for m_, val in zip((0, 1), two):
+                prog["vars"].append({"name": nm, "mod": m_, "val": enc(val)})
+                prog["funcs"].append({"name": f"f{m_}", "mod": m_, "params": [], "ver": 0, "pad": 0,
+                                      "data": new_path() if draw(st.booleans()) else None, "body": [["var", len(prog["vars"]) - 1]]})
+            mod = 1
+            motif2 = [0, 1]
     for i in range(len(prog["funcs"]), nfuncs):
         if class_at == i and not prog["classes"]:
             cbody, cuniq = gen_body(i, mod, [], allow_keep=False, maxlen=2)
